@@ -231,6 +231,35 @@ def run_case(spec, sub=None):
             else:
                 viol.append(f"ContractionTreeCompressed.get_path raised {lp}")
 
+    # ... and from a PREFIX of the linear path (the class, like its parent,
+    # accepts incomplete paths and completes them): the steps given must be
+    # nodes of the resulting complete tree, as for the same prefix in ssa form
+    if not viol and n >= 3:
+        import warnings as _w
+
+        # (how many steps are kept: derived from the spec, 1 .. len - 1)
+        k_ = 1 + sum(map(sum, spec["path"])) % (len(spec["path"]) - 1)
+        prefix = [tuple(p) for p in spec["path"]][:k_]
+        pre_nodes = {p_ for p_, _, _ in ref.ssa_nodes([tuple(x) for x in my_ssa][:k_], n)}
+
+        def from_prefix(**kw):
+            with _w.catch_warnings():
+                _w.simplefilter("ignore")
+                t_ = ctg.ContractionTreeCompressed.from_path(inputs, output, sizes, autocomplete=True, **kw)
+            return t_.is_complete(), set(t_.children)
+
+        for form, kw in (("path", {"path": prefix}), ("ssa_path", {"ssa_path": [tuple(x) for x in my_ssa][:k_]})):
+            ok, r_ = guarded(from_prefix, **kw)
+            if not ok:
+                viol.append(
+                    f"ContractionTreeCompressed.from_path({form}=<first {k_} of {len(spec['path'])} steps>, autocomplete=True) raised {r_}"
+                )
+            elif not r_[0] or not pre_nodes <= r_[1]:
+                viol.append(
+                    f"ContractionTreeCompressed.from_path({form}=<first {k_} steps>, autocomplete=True): "
+                    f"{'incomplete tree' if not r_[0] else 'the given steps are not nodes of the tree'}"
+                )
+
     # general paths (1..3 tensor steps, maybe incomplete, explicit N)
     gpath = [tuple(s) for s in spec["gpath"]]
     gref = ref.linear_to_ssa_ref(gpath, n)
